@@ -1290,12 +1290,356 @@ def check_invalid_cli(ctx, rep, cls, desc, files) -> None:
 
 
 # ---------------------------------------------------------------------------------------------------------------
+# inclusion graphs: chains, cycles ("rho" shapes incl. self-loops) and diamonds of 1-4 files over 1-4 directories, every
+# hop and the entry path spelled in every way a path can be spelled.  Reference: a walk of the files on disk with
+# os.path.realpath (never pyanalyze's own path handling): recursive iff a real path is reached again while it is on the
+# walk's stack.  Recursive -> InvalidConfigOption from every entry point; not recursive -> loads, and the options layer
+# per the reference model with the files in walk order.
+
+ROOT = "{ROOT}"
+DIR_PATTERNS = {
+    "one-dir": ["", "", "", ""],
+    "one-subdir": ["conf", "conf", "conf", "conf"],
+    "siblings": ["ta", "tb", "tc", "td"],
+    "two-siblings": ["ta", "tb", "ta", "tb"],
+    "descending": ["", "sub", "sub/deep", "sub/deep/er"],
+    "ascending": ["p/q/r", "p/q", "p", ""],
+    "cousins": ["x/a", "y/b", "x/c", "y/d"],
+}
+SPELLINGS = ["rel", "dot", "via-own-dir", "via-subdir", "absolute", "absolute-dotdot", "symlink-file",
+             "symlink-file-absolute", "symlink-dir"]
+ENTRY_SPELLINGS = ["plain", "dotdot", "symlink"]
+GRAPH_PATHS = [(), ("a", "b"), ("d",)]
+GRAPH_OPTS = ["maximum_positional_args", "union_simplification_limit", "extra_builtins", "undefined_name"]
+
+
+def _j(*parts) -> str:
+    return "/".join(p for p in parts if p)
+
+
+def spell_hop(kind: str, src: str, dst: str, k: int, links: list, mkdirs: list) -> str:
+    """The extend_config value by which the file `src` names the file `dst` (both relative to the graph's root)."""
+    sd = os.path.dirname(src)
+    rel = os.path.relpath(dst, sd or ".")
+    if kind == "dot":
+        return "./" + rel
+    if kind == "via-own-dir" and sd:
+        return f"../{os.path.basename(sd)}/{rel}"
+    if kind == "via-subdir":
+        mkdirs.append(_j(sd, "_d"))
+        return "_d/../" + rel
+    if kind == "absolute":
+        return _j(ROOT, dst)
+    if kind == "absolute-dotdot":
+        mkdirs.append(_j(sd, "_d"))
+        return _j(ROOT, sd, "_d", "..", rel)
+    if kind == "symlink-file":
+        links.append([_j(sd, f"ln{k}.toml"), rel])
+        return f"ln{k}.toml"
+    if kind == "symlink-file-absolute":
+        links.append([_j(sd, f"ln{k}.toml"), _j(ROOT, dst)])
+        return f"ln{k}.toml"
+    if kind == "symlink-dir":
+        links.append([_j(sd, f"lnd{k}"), os.path.dirname(rel) or "."])
+        return f"lnd{k}/{os.path.basename(dst)}"
+    return rel
+
+
+def graph_top(i: int, n: int, variant: int) -> list:
+    pairs = []
+    if i != 1:
+        pairs.append(["maximum_positional_args", 100 + i])
+    pairs.append(["extra_builtins", [f"g{i}"]])
+    if (i + variant) % 2 == 0:
+        pairs.append(["undefined_name", bool((i + variant // 2) % 2)])
+    if i == n - 1:
+        pairs.append(["union_simplification_limit", 200 + i])
+    return pairs
+
+
+def build_graph(spec: dict) -> dict:
+    """spec: n (files), back (index the last file extends, or None), dirs (list of directories), spell (one kind per
+    hop), entry (spelling of the main path), variant, diamond.  -> witness: files/links/mkdirs/entry (+ spec)."""
+    n, back, variant = spec["n"], spec.get("back"), spec.get("variant", 0)
+    dirs = spec["dirs"][:n]
+    paths = [_j(d, "pyproject.toml" if dirs.count(d) == 1 else f"c{i}.toml") for i, d in enumerate(dirs)]
+    links: list = []
+    mkdirs: list = []
+    spell = spec["spell"]
+    hop = itertools.count()
+
+    def value(src_i, dst_i):
+        k = next(hop)
+        return spell_hop(spell[k % len(spell)], paths[src_i], paths[dst_i], k, links, mkdirs)
+
+    files = []
+    for i in range(n):
+        top = graph_top(i, n, variant)
+        overrides = [[["module", "a.b"], ["maximum_positional_args", 300 + i], ["extra_builtins", [f"o{i}"]]]] if i % 2 == 1 else []
+        targets = []
+        if spec.get("diamond"):          # 0 -> 1 (top level) and 0 -> 2 (from an override section); 1 -> 3; 2 -> 3; 3 -> back
+            if i == 0:
+                targets = [1]
+                overrides = [[["module", "a.b"], ["extend_config", value(0, 2)]]]
+            elif i in (1, 2):
+                targets = [3]
+            elif back is not None:
+                targets = [back]
+        elif i + 1 < n:
+            targets = [i + 1]
+        elif back is not None:
+            targets = [back]
+        for t in targets:
+            top.insert((i + variant) % (len(top) + 1), ["extend_config", value(i, t)])
+        if overrides:
+            top.insert((i + variant // 2) % (len(top) + 1), ["overrides", overrides])
+        files.append({"path": paths[i], "raw": render({"top": top, "tables": False})})
+    d0, name0 = os.path.dirname(paths[0]), os.path.basename(paths[0])
+    if spec.get("entry") == "dotdot":
+        if d0:
+            entry = _j(ROOT, d0, "..", os.path.basename(d0), name0)
+        else:
+            mkdirs.append("_d")
+            entry = _j(ROOT, "_d", "..", name0)
+    elif spec.get("entry") == "symlink":
+        links.append(["entry_ln.toml", paths[0]])
+        entry = _j(ROOT, "entry_ln.toml")
+    else:
+        entry = _j(ROOT, paths[0])
+    return {"route": "graph", "files": files, "links": links, "mkdirs": sorted(set(mkdirs)), "entry": entry, "spec": spec}
+
+
+_GRAPH_N = itertools.count()
+
+
+def materialise_graph(wit: dict) -> str:
+    """Writes the graph into a fresh directory; returns that directory (the value of {ROOT})."""
+    root = os.path.join(scratch().root, f"g{next(_GRAPH_N)}")
+    os.makedirs(root)
+    for d in wit.get("mkdirs", []):
+        os.makedirs(os.path.join(root, d), exist_ok=True)
+    for f in wit["files"]:
+        p = os.path.join(root, f["path"])
+        os.makedirs(os.path.dirname(p), exist_ok=True)
+        with open(p, "w") as fh:
+            fh.write(f["raw"].replace(ROOT, root))
+    for link, target in wit.get("links", []):
+        p = os.path.join(root, link)
+        os.makedirs(os.path.dirname(p), exist_ok=True)
+        os.symlink(target.replace(ROOT, root), p)
+    return root
+
+
+def reference_walk(entry: str):
+    """Independent ground truth, read from the files on disk.  -> (recursive?, [real paths in inclusion order],
+    [(real path of the including file, extend_config value, real path of the target)])."""
+    import tomli
+
+    order, hops = [], []
+
+    def visit(p: str, active: frozenset) -> bool:
+        real = os.path.realpath(p)
+        if real in active:
+            return True
+        order.append(real)
+        with open(real, "rb") as fh:
+            data = tomli.load(fh).get("tool", {}).get("pyanalyze", {})
+        values = []
+        for k, v in data.items():
+            if k == "extend_config":
+                values.append(v)
+            elif k == "overrides":
+                values += [s["extend_config"] for s in v if "extend_config" in s]
+        for v in values:
+            target = os.path.join(os.path.dirname(real), v)
+            hops.append((real, v, os.path.realpath(target)))
+            if visit(target, active | {real}):
+                return True
+        return False
+
+    return visit(entry, frozenset()), order, hops
+
+
+def hop_class(real_src: str, value: str, real_dst: str) -> str:
+    """How the hop is written, as pathlib sees it (`parent / value` collapses '.', keeps '..' and symlinks)."""
+    joined = str(Path(real_src).parent / value)
+    bits = []
+    if os.path.isabs(value):
+        bits.append("absolute")
+    if ".." in value.split("/"):
+        bits.append("dotdot")
+    if joined != real_dst and os.path.normpath(joined) == real_dst:
+        pass                               # only '..' / '.' segments make it differ
+    elif joined != real_dst:
+        bits.append("symlink")
+    if joined == real_dst:
+        bits.append("canonical")
+    return "+".join(bits) or "plain"
+
+
+def judge_graph(wit: dict, entries=ENTRIES):
+    """-> (list of (key, what), info).  Raises AssertionError if the generated graph is not what the spec meant."""
+    root = materialise_graph(wit)
+    try:
+        entry = wit["entry"].replace(ROOT, root)
+        cyclic, order, hops = reference_walk(entry)
+        spec = wit.get("spec", {})
+        classes = [hop_class(*h) for h in hops]
+        all_noncanonical = bool(hops) and all("canonical" not in c for c in classes)
+        info = {"cyclic": cyclic, "files_walked": len(order), "hop_classes": classes, "all_noncanonical": all_noncanonical,
+                "values_compared": 0, "loaded": 0, "rejected": 0}
+        shape = "diamond" if spec.get("diamond") else "chain"
+        desc = (f"{shape} of {len(wit['files'])} file(s) {[f['path'] for f in wit['files']]}, extend_config values "
+                f"{[h[1].replace(root, ROOT) for h in hops]}, main path {wit['entry']}")
+        out = []
+        if cyclic:
+            for e in entries:
+                got = invalid_outcome(entry, e)
+                if got == "rejected":
+                    info["rejected"] += 1
+                elif got == "accepted":
+                    out.append((f"inclusion-graph|recursive|accepted", f"recursive inclusion accepted via {e}: {desc}"))
+                else:
+                    out.append((f"inclusion-graph|recursive|{got}",
+                                f"recursive inclusion: {got} instead of InvalidConfigOption via {e}: {desc}"))
+            return out, info
+        # not recursive: must load through every entry point ...
+        for e in entries:
+            got = invalid_outcome(entry, e)
+            if got == "accepted":
+                info["loaded"] += 1
+            else:
+                out.append((f"inclusion-graph|not-recursive|{got}",
+                            f"non-recursive {desc}: {got} via {e}"))
+        if out:
+            return out, info
+        options = build_options(entry, [])
+        by_real = {os.path.realpath(os.path.join(root, f["path"])): f for f in wit["files"]}
+        if spec.get("diamond"):
+            # the shared file is included twice and the two branches have equal depth: only what every reading of the
+            # documentation agrees on is judged (main file first; a value set in the shared file only comes from there)
+            first = stack_from_witness([by_real[order[0]]])["files"][0]
+            last = stack_from_witness([by_real[order[-1]]])["files"][0]
+            for opt, src in (("maximum_positional_args", first), ("union_simplification_limit", last)):
+                want = dict((k, v) for k, v in src["top"] if k != "overrides").get(opt)
+                got = observe_api(options, (), opt)
+                info["values_compared"] += 1
+                if want is not None and not same(got, want):
+                    out.append((f"inclusion-graph|diamond|{'main-file-value-lost' if src is first else 'shared-file-value-lost'}",
+                                f"{desc}: {opt} is {got!r}, documented {want!r}"))
+            return out, info
+        stack = stack_from_witness([by_real[r] for r in order])
+        model = Model(stack, [])
+        for path in GRAPH_PATHS:
+            for opt in GRAPH_OPTS:
+                info["values_compared"] += 1
+                for key, what in judge_query(model, stack, [], options, path, opt)[1]:
+                    out.append((key, f"{desc}: {what}"))
+        return out, info
+    finally:
+        shutil.rmtree(root, ignore_errors=True)
+
+
+def graph_specs(ctx):
+    """Systematic part: every shape x directory pattern x one spelling used for every hop (entry spelling and key order
+    rotate); then per-hop random mixtures."""
+    idx = itertools.count()
+    for n in (1, 2, 3, 4):
+        for back in [None] + list(range(n)):
+            for dname, dirs in DIR_PATTERNS.items():
+                for sp in SPELLINGS:
+                    i = next(idx)
+                    yield {"n": n, "back": back, "dirs": dirs, "spell": [sp], "entry": ENTRY_SPELLINGS[i % 3],
+                           "variant": i % 4, "pattern": dname}
+    for back in (None, 0, 1, 2, 3):
+        for dname, dirs in DIR_PATTERNS.items():
+            for sp in SPELLINGS:
+                i = next(idx)
+                yield {"n": 4, "back": back, "dirs": dirs, "spell": [sp], "entry": ENTRY_SPELLINGS[i % 3],
+                       "variant": i % 4, "pattern": dname, "diamond": True}
+    import random
+
+    rng = random.Random(f"C18-graphs/{ctx.seed}")      # the same list in every shard
+    pool = ["", "ta", "tb", "ta/sub", "tb/sub", "p/q"]
+    for _ in range(ctx.pick(700, 14000)):
+        n = rng.choice([1, 2, 2, 3, 3, 4, 4])
+        diamond = rng.random() < 0.15
+        if diamond:
+            n = 4
+        yield {"n": n, "back": rng.choice([None, None] + list(range(n))), "dirs": [rng.choice(pool) for _ in range(4)],
+               "spell": [rng.choice(SPELLINGS) for _ in range(6)], "entry": rng.choice(ENTRY_SPELLINGS),
+               "variant": rng.randrange(4), "pattern": "random", "diamond": diamond}
+
+
+def run_graphs(ctx, rep: Reporter) -> None:
+    for i, spec in enumerate(graph_specs(ctx)):
+        if not ctx.mine(i):
+            continue
+        wit = build_graph(spec)
+        # the real command-line front end (argparse over every option) is the expensive entry point: every third graph
+        entries = ENTRIES if (i // ctx.nshards) % 3 == 0 else ENTRIES[:2]
+        try:
+            res, info = judge_graph(wit, entries)
+        except Exception as e:  # noqa: BLE001 - the reference walk / generator failed: not a verdict
+            ctx.count("graph_generator_failures")
+            ctx.note(f"graph {spec}: {e!r}")
+            continue
+        ctx.count("evaluations", len(entries) + info["values_compared"])
+        ctx.count("graph_cases")
+        ctx.count("graph_entry_point_runs", len(entries))
+        ctx.count("graph_values_compared", info["values_compared"])
+        kind = ("diamond-" if spec.get("diamond") else "") + ("recursive" if info["cyclic"] else "not-recursive")
+        ctx.histo("graph_kind", kind)
+        ctx.histo("graph_files_walked", str(info["files_walked"]))
+        ctx.histo("graph_entry_spelling", spec["entry"])
+        ctx.histo("graph_dir_pattern", spec["pattern"])
+        for c in info["hop_classes"]:
+            ctx.histo("graph_hop_class", c)
+        if info["cyclic"]:
+            ctx.count("graph_recursive")
+            ctx.count("graph_recursive_rejected", info["rejected"])
+            if info["all_noncanonical"]:
+                ctx.count("graph_recursive_no_canonical_hop")
+        else:
+            ctx.count("graph_not_recursive")
+            ctx.count("graph_not_recursive_loaded", info["loaded"])
+        if any("symlink" in c for c in info["hop_classes"]) or spec["entry"] == "symlink":
+            ctx.count("graph_with_symlink")
+        ctx.nontrivial(("graph", kind, spec["n"], spec.get("back"), tuple(info["hop_classes"]), spec["entry"], spec["pattern"]))
+        seen = set()
+        for key, what in res:
+            if key not in seen:
+                seen.add(key)
+                rep.report(key, what, wit)
+        if info["cyclic"] and info["all_noncanonical"] and i % (ctx.nshards * ctx.pick(40, 10)) == ctx.shard:
+            check_graph_cli(ctx, rep, wit)
+
+
+def check_graph_cli(ctx, rep, wit) -> None:
+    root = materialise_graph(wit)
+    try:
+        entry = wit["entry"].replace(ROOT, root)
+        cp = harness.run_cli(["--config-file", entry, "--display-options"], cwd=root, env={"NO_COLOR": "1"})
+    finally:
+        shutil.rmtree(root, ignore_errors=True)
+    ctx.count("evaluations")
+    ctx.count("graph_cli_runs")
+    if cp.returncode == 0 or "InvalidConfigOption" not in cp.stderr:
+        last = (cp.stderr.strip().splitlines() or [""])[-1]
+        cls = "accepted" if cp.returncode == 0 else re.sub(r":.*", "", last)[:40]
+        rep.report(f"inclusion-graph|recursive|{cls}",
+                   f"python -m pyanalyze --display-options on a recursive inclusion: rc={cp.returncode}, {last[:200]!r}",
+                   dict(wit, cli=True))
+
+
+# ---------------------------------------------------------------------------------------------------------------
 
 
 def shard(ctx) -> None:
     rep = Reporter(ctx)
     try:
         run_invalid(ctx, rep)
+        run_graphs(ctx, rep)
         for i, st in enumerate(EDGE_STACKS):
             if ctx.mine(i):
                 ctx.count("edge_stacks")
